@@ -149,6 +149,14 @@ func injectSpies(t *rapid.T, set TSet) (TSet, map[string]int) {
 		case absorb == 2:
 			sites["subject-of-default"]++
 			return Filt(Call("spy", e), "default", e)
+		case absorb == 3:
+			// a subscript piped through default(): the container expression fails
+			sites["subscript-under-default"]++
+			return Filt(Idx(List(Call("spy", e)), Int(0)), "default", e)
+		case absorb == 4:
+			// ... or the index expression does
+			sites["subscript-under-default"]++
+			return Filt(Idx(List(e, e), Call("spy", Int(1))), "default", e)
 		case where == "cond" && rapid.IntRange(0, 2).Draw(t, "astest") == 0:
 			return Test(e, "spyt", false)
 		case rapid.Bool().Draw(t, "asfilter"):
@@ -243,7 +251,7 @@ func checkC17N(c C17Case) (int, error) {
 	return limit, nil
 }
 
-const c17Rule = "template sets from five structural generators (control flow, inheritance chains with parent(), include chains with all options, macro libraries through all five call forms, apply/spaceless bodies) with spies (function, filter, test; also as the operand of `is defined` and as the subject of default()) injected at random expression positions: print, if/elseif conditions, for sequences, set values, include names and with-values, macro arguments and defaults, extends/import names, apply arguments; for every spy invocation k of the fault-free render (all when N <= 64, else 64 evenly spaced) the render is repeated with invocation k failing, through Render, RenderTo and debug mode; non-trivial = the failing invocation lies below at least one structural node (loop, condition, block, include, macro, parent template); distinct by (source set, context)"
+const c17Rule = "template sets from five structural generators (control flow, inheritance chains with parent(), include chains with all options, macro libraries through all five call forms, apply/spaceless bodies) with spies (function, filter, test; also as the operand of `is defined`, as the subject of default() and inside a subscript piped through default()) injected at random expression positions: print, if/elseif conditions, for sequences, set values, include names and with-values, macro arguments and defaults, extends/import names, apply arguments; for every spy invocation k of the fault-free render (all when N <= 64, else 64 evenly spaced) the render is repeated with invocation k failing, through Render, RenderTo and debug mode; non-trivial = the failing invocation lies below at least one structural node (loop, condition, block, include, macro, parent template); distinct by (source set, context)"
 
 func TestC17Faults(t *testing.T) {
 	r := NewRec(t, "C17", c17Rule)
@@ -521,6 +529,30 @@ func checkC17Loader(c C17LoaderCase) error {
 			return fmt.Errorf("partial output %s with the error", q(r.Out))
 		}
 	}
+	// a loader that keeps failing for one name: the second render on the same engine must
+	// report the cause like the first (nothing may be remembered as "missing" meanwhile)
+	for _, name := range sortedTemplateNames(srcs) {
+		e := twig.New()
+		e.RegisterLoader(c11MapLoader{srcs, map[string]bool{name: true}})
+		e.RegisterLoader(twig.NewArrayLoader(map[string]string{"unrelated": "u"}))
+		e.EnableSandbox(allowAll{})
+		NewSpies().Install(e)
+		for round := 1; round <= 3; round++ {
+			r := render(e, c.Main, c.Ctx.Go())
+			if r.Panic != "" {
+				return fmt.Errorf("panic: %s", r.Panic)
+			}
+			if r.Err == "" {
+				if round == 1 {
+					break // this render does not need that template
+				}
+				return fmt.Errorf("the loader keeps failing for %q: render %d on the same engine returned %s with a nil error (render 1 reported the failure); templates:%s", name, round, q(r.Out), showSources(srcs))
+			}
+			if !errors.Is(r.Error(), errSentinel) {
+				return fmt.Errorf("the loader keeps failing for %q: the error of render %d does not wrap the cause: %s; templates:%s", name, round, firstLine(r.Err), showSources(srcs))
+			}
+		}
+	}
 	// the same with a reload: everything is cached by a first render, the loader's timestamps
 	// advance (auto-reload on), and the k-th loader call of the second render fails
 	mkTS := func() (*twig.Engine, *spyLoader, *int64) {
@@ -611,7 +643,7 @@ func checkC17Loader(c C17LoaderCase) error {
 }
 
 func TestC17Loaders(t *testing.T) {
-	r := NewRec(t, "C17", "inheritance, include and import structures served by a spy loader; for every loader call k of the fault-free render the render is repeated on a fresh engine with call k failing with a wrapped sentinel (an I/O style failure, not 'not found'); then again with everything cached, auto-reload on and advanced timestamps, failing every loader call of the reloading render; and on a real FileSystemLoader with each template in turn replaced by a directory of its name; non-trivial = the render loads at least two templates; distinct by source set")
+	r := NewRec(t, "C17", "inheritance, include and import structures served by a spy loader; for every loader call k of the fault-free render the render is repeated on a fresh engine with call k failing with a wrapped sentinel (an I/O style failure, not 'not found'); a loader that keeps failing for one name over three renders of one engine; then again with everything cached, auto-reload on and advanced timestamps, failing every loader call of the reloading render; and on a real FileSystemLoader with each template in turn replaced by a directory of its name; non-trivial = the render loads at least two templates; distinct by source set")
 	defer r.Flush()
 	rapid.Check(t, func(rt *rapid.T) {
 		var sc SetCase
